@@ -106,22 +106,37 @@ def run(cx):
                         x_, y_ = y_, x_                 # `backoff < now`  ==  `now > backoff`
                     if mentions_upvar(x_, "now") and mentions_field(y_, "backoff") and backoff_state(strip_identity(y_)[1] if strip_identity(y_)[0] == "field" else y_):
                         return "ret=backoff-elapsed"
-                if name_matches(c.fn, "Option::unwrap_or") and const_of(t[2][1]) == "true":
-                    m = strip_identity(t[2][0])
-                    if m[0] == "call" and name_matches(m[1], "Option::map"):
-                        g = strip_identity(m[2][0])
-                        okg = g[0] == "call" and name_matches(g[1], "HashMap::get") and mentions_upvar(g[2][0], "self__dial_backoff_states") and pid(g[2][1])
-                        kc = m[2][1]
-                        kb = sub.get(kc[2]) if kc[0] == "agg" else None
-                        okc = False
-                        if kb is not None:
-                            r = strip_identity(Origins(kb).of_local(0))
-                            if r[0] == "call" and name_matches(r[1], ("cmp::PartialOrd::gt", "cmp::PartialOrd::ge")):
-                                okc = mentions_upvar(r[2][0], "now") and mentions_field(r[2][1], "backoff") and mentions_param(r[2][1], "state")
-                            elif r[0] == "call" and name_matches(r[1], ("cmp::PartialOrd::lt", "cmp::PartialOrd::le")):
-                                okc = mentions_upvar(r[2][1], "now") and mentions_field(r[2][0], "backoff") and mentions_param(r[2][0], "state")
-                        if okg and okc:
-                            return "ret=backoff-elapsed-or-none"
+                # any combinator spelling of "no backoff state, or its backoff has elapsed": `.map(|s| now > s.backoff).unwrap_or(true)`,
+                # `.map_or(true, ..)`, `.is_none_or(|s| s.backoff < now)`, ... - decided on the value's case table
+                def atom(t_):
+                    if t_[0] == "call" and name_matches(t_[1], "HashMap::get") and mentions_upvar(t_[2][0], "self__dial_backoff_states") and pid(t_[2][1]):
+                        return "state"
+                    if t_[0] == "call" and name_matches(t_[1], ("cmp::PartialOrd::gt", "cmp::PartialOrd::ge", "cmp::PartialOrd::lt", "cmp::PartialOrd::le")) and len(t_[2]) == 2:
+                        x_, y_ = t_[2]
+                        swap = name_matches(t_[1], ("cmp::PartialOrd::lt", "cmp::PartialOrd::le"))
+                        if swap:
+                            x_, y_ = y_, x_
+                        if mentions_upvar(x_, "now") and mentions_field(y_, "backoff"):
+                            return ("elapsed", "bool")
+                        if mentions_upvar(y_, "now") and mentions_field(x_, "backoff"):
+                            return ("not-elapsed", "bool")
+                    return None
+                vc = value_cases(prog, t, atom)
+                rows = {}
+                for cs_, o_ in vc:
+                    rows.setdefault(frozenset(cs_), set()).add(o_)
+
+                def look(**kw):
+                    out_ = set()
+                    for k_, v_ in rows.items():
+                        d_ = dict(k_)
+                        if "not-elapsed" in d_:
+                            d_["elapsed"] = "false" if d_.pop("not-elapsed") == "true" else "true"
+                        if all(d_.get(a_, b_) == b_ for a_, b_ in kw.items()):
+                            out_ |= v_
+                    return out_
+                if rows and look(state="None") == {"true"} and look(state="Some", elapsed="true") == {"true"} and look(state="Some", elapsed="false") == {"false"}:
+                    return "ret=backoff-elapsed-or-none"
                 return "ret=?call:" + c.fn.split("::")[-1]
             return None
         ws = {fmt_word(w) for w in seq_words(b, call_sym2, stmt_sym, extra, inline_prog=prog)}     # predicate helpers are inlined
